@@ -443,28 +443,68 @@ func (dec *Decoder) readReferred() interface{} {
 }
 
 // peekReferred looks at the object the reference index at the read position
-// points at without consuming the index. ok is false when the index is not
-// completely buffered (a reader-backed decoder at a chunk boundary) or does not
+// points at without consuming the index. ok is false when the index does not
 // point at anything.
 func (dec *Decoder) peekReferred() (o interface{}, ok bool) {
-	index := 0
-	i := dec.head
-	for ; i < dec.tail; i++ {
-		c := dec.buf[i]
-		if c == TagSemicolon {
-			break
+	for {
+		index := 0
+		i := dec.head
+		for ; i < dec.tail; i++ {
+			c := dec.buf[i]
+			if c == TagSemicolon {
+				break
+			}
+			if c < '0' || c > '9' {
+				return nil, false
+			}
+			if index = index*10 + int(c-'0'); index >= len(dec.refer.ref) {
+				return nil, false
+			}
 		}
-		if c < '0' || c > '9' {
-			return nil, false
+		if i < dec.tail {
+			if i == dec.head {
+				return nil, false
+			}
+			return dec.refer.ref[index], true
 		}
-		if index = index*10 + int(c-'0'); index >= len(dec.refer.ref) {
+		// the index is not completely buffered: a reader-backed decoder at a chunk
+		// boundary looks further ahead, so that a reference is resolved the same
+		// way wherever the input happens to be cut
+		if !dec.lookAhead() {
 			return nil, false
 		}
 	}
-	if i >= dec.tail || i == dec.head {
-		return nil, false
+}
+
+// lookAhead reads more input behind the bytes that are buffered and not yet
+// consumed (loadMore replaces them). It reports whether anything was added.
+func (dec *Decoder) lookAhead() bool {
+	if dec.reader == nil {
+		return false
 	}
-	return dec.refer.ref[index], true
+	if dec.buf == nil {
+		dec.buf = make([]byte, defaultBufferSize)
+	}
+	if dec.head > 0 {
+		copy(dec.buf, dec.buf[dec.head:dec.tail])
+		dec.tail -= dec.head
+		dec.head = 0
+	}
+	if dec.tail == len(dec.buf) {
+		buf := make([]byte, 2*len(dec.buf))
+		copy(buf, dec.buf[:dec.tail])
+		dec.buf = buf
+	}
+	for {
+		n, err := dec.reader.Read(dec.buf[dec.tail:])
+		if n > 0 {
+			dec.tail += n
+			return true
+		}
+		if err != nil {
+			return false
+		}
+	}
 }
 
 // own decides whether data, a slice of the read buffer, may be handed out as it
